@@ -177,12 +177,38 @@ func (s *Solver) GetValues(names []string) (map[string]string, error) {
 		if !strings.HasPrefix(out, "((") {
 			return nil, fmt.Errorf("get-value: unexpected %q", out)
 		}
-		body := out[2 : len(out)-2]
-		body = strings.TrimSpace(body)
-		if !strings.HasPrefix(body, n) {
+		body := strings.TrimSpace(out[2 : len(out)-2])
+		// body is "<term> <value>": skip the term (balanced parentheses or one token)
+		end := 0
+		if strings.HasPrefix(body, "(") {
+			depth := 0
+			inStr := false
+			for i := 0; i < len(body); i++ {
+				c := body[i]
+				if c == '"' {
+					inStr = !inStr
+				}
+				if inStr {
+					continue
+				}
+				if c == '(' {
+					depth++
+				}
+				if c == ')' {
+					depth--
+					if depth == 0 {
+						end = i + 1
+						break
+					}
+				}
+			}
+		} else {
+			end = strings.IndexAny(body, " \t\n")
+		}
+		if end <= 0 || end > len(body) {
 			return nil, fmt.Errorf("get-value: unexpected %q", out)
 		}
-		res[n] = strings.TrimSpace(body[len(n):])
+		res[n] = strings.TrimSpace(body[end:])
 	}
 	return res, nil
 }
